@@ -91,3 +91,14 @@ pub(crate) fn words_at<const L: usize>(n: usize) -> [u64; W] {
     words
 }
 
+
+/// One-line BitVector from the first 8 words (8-iteration loops only: for harnesses that keep the unwind bound at 10).
+pub(crate) fn mk_imm_line(words: &[u64; W], n: usize) -> BitVector {
+    let mut dl = DataLine::default();
+    let mut k = 0;
+    while k < 8 {
+        dl.words[k] = words[k];
+        k += 1;
+    }
+    BitVector { data: vec![dl].into_boxed_slice(), n_bits: n, n_ones: 0 }
+}
